@@ -24,6 +24,7 @@ type Attempt struct {
 	Method     string
 	Outcome    string
 	Unexpected bool
+	Path       string
 	clen       int64
 }
 
@@ -35,10 +36,20 @@ type aux struct {
 	authSeen   int
 	outcome    string // what the target answers to the next delivery
 	attempts   []Attempt
+	fan        []Attempt // deliveries to the second target of a fan-out route
+	need       int       // deliveries expected in the current Push step (one per target)
+	inStep     int       // deliveries of the message that arrived in the current Push step
+	between    func()    // runs while the first of them is being answered (other traffic between the per-target deliveries)
 	companions []Attempt
 	pending    []*Attempt // recorded by the RoundTripper, completed by the target
 	gate       *gate
 	arrived    chan struct{}
+}
+
+func (x *aux) inStepReached() bool {
+	x.mu.Lock()
+	defer x.mu.Unlock()
+	return x.need <= 1 || x.inStep >= x.need
 }
 
 // Aux hosts the forward-auth server and the push target for all journeys of a process.
@@ -112,12 +123,13 @@ func (a *Aux) serve(w http.ResponseWriter, r *http.Request) {
 		buf.WriteString("\r\n")
 		_ = buf.Flush()
 		_ = conn.Close()
-	case strings.HasPrefix(r.URL.Path, "/t/"):
+	case strings.HasPrefix(r.URL.Path, "/t/"), strings.HasPrefix(r.URL.Path, "/t2/"):
+		second := strings.HasPrefix(r.URL.Path, "/t2/")
 		body, _ := io.ReadAll(r.Body)
 		x.mu.Lock()
 		var att *Attempt
 		for i, p := range x.pending {
-			if p.clen == r.ContentLength {
+			if p.clen == r.ContentLength && p.Path == r.URL.Path {
 				att = p
 				x.pending = append(x.pending[:i], x.pending[i+1:]...)
 				break
@@ -138,17 +150,27 @@ func (a *Aux) serve(w http.ResponseWriter, r *http.Request) {
 		att.WireHeader = r.Header.Clone()
 		att.Body = body
 		att.Method = r.Method
+		att.Path = r.URL.Path
 		att.Outcome = x.outcome
 		if x.outcome == "" {
 			att.Unexpected = true
 		}
-		x.outcome = ""
-		x.attempts = append(x.attempts, *att)
+		if second {
+			x.fan = append(x.fan, *att)
+		} else {
+			x.attempts = append(x.attempts, *att)
+		}
+		first := x.inStep == 0
+		x.inStep++
+		between := x.between
 		g := x.gate
 		ch := x.arrived
 		x.mu.Unlock()
-		if g != nil {
+		if g != nil && x.inStepReached() {
 			g.Close() // no further dequeue by the dispatcher until the next Push step
+		}
+		if first && between != nil {
+			between()
 		}
 		switch att.Outcome {
 		case "ok":
@@ -175,9 +197,9 @@ type recordingRT struct {
 }
 
 func (t *recordingRT) RoundTrip(req *http.Request) (*http.Response, error) {
-	if x := t.aux.lookup(req.URL.Path); x != nil && strings.HasPrefix(req.URL.Path, "/t/") {
+	if x := t.aux.lookup(req.URL.Path); x != nil && (strings.HasPrefix(req.URL.Path, "/t/") || strings.HasPrefix(req.URL.Path, "/t2/")) {
 		x.mu.Lock()
-		x.pending = append(x.pending, &Attempt{Header: req.Header.Clone(), clen: req.ContentLength})
+		x.pending = append(x.pending, &Attempt{Header: req.Header.Clone(), clen: req.ContentLength, Path: req.URL.Path})
 		x.mu.Unlock()
 	}
 	return t.base.RoundTrip(req)
@@ -245,34 +267,68 @@ func (m sqlGated) Dequeue(req queue.DequeueRequest) (queue.DequeueResponse, erro
 
 const pullToken = "fid-pull-token"
 
+// Names used when the route is managed (endpoint-scoped publish path).
+const (
+	mgApp      = "fidapp"
+	mgEndpoint = "fidep"
+	signSecret = "fid-sign-secret-0123456789"
+)
+
+// Route describes the route the message takes.
+type Route struct {
+	Backend, Mode        string
+	Lim, Fwd             bool
+	Managed, Fan, Signed bool
+}
+
 // ConfigText renders the Hookaidofile of one journey: the route the message
-// takes (pull or deliver; optionally small limits; optionally forward auth
-// with copy_headers) and an auxiliary pull route, so that Pull API, worker
-// gRPC and Admin API always exist.
-func ConfigText(backend, mode string, lim, fwd bool, auxURL, jid string) string {
+// takes (pull or deliver with one or two targets, optionally signed; optionally
+// small limits; optionally forward auth with copy_headers; optionally
+// management labels) and an auxiliary pull route, so that Pull API, worker gRPC
+// and Admin API always exist.  adminListen is 127.0.0.3:0 for the instance and
+// the real address in the copy an MCP server in admin-proxy mode reads.
+func ConfigText(r Route, auxURL, jid, adminListen string) string {
 	var b strings.Builder
 	b.WriteString("ingress {\n  listen 127.0.0.1:0\n}\n")
 	b.WriteString("pull_api {\n  listen 127.0.0.2:0\n  grpc_listen 127.0.0.4:0\n  auth token raw:" + pullToken + "\n}\n")
-	b.WriteString("admin_api {\n  listen 127.0.0.3:0\n}\n")
+	b.WriteString("admin_api {\n  listen " + adminListen + "\n}\n")
 	b.WriteString("delivered_retention {\n  max_age 1h\n}\n")
 	b.WriteString("defaults {\n  egress {\n    https_only off\n    dns_rebind_protection off\n  }\n}\n")
 	b.WriteString("/in {\n")
-	fmt.Fprintf(&b, "  queue { backend %s }\n", backend)
-	if lim {
+	fmt.Fprintf(&b, "  queue { backend %s }\n", r.Backend)
+	if r.Managed {
+		fmt.Fprintf(&b, "  application \"%s\"\n  endpoint_name \"%s\"\n", mgApp, mgEndpoint)
+	}
+	if r.Lim {
 		fmt.Fprintf(&b, "  max_body %d\n  max_headers %d\n", LimBody, LimHeaders)
 	}
-	if fwd {
+	if r.Fwd {
 		fmt.Fprintf(&b, "  auth forward \"%s/auth/%s\" {\n    timeout 5s\n    copy_headers \"%s\"\n    copy_headers \"%s\"\n  }\n",
 			auxURL, jid, CanonName(nameLower["uid"]), nameLower["org"])
 	}
-	if mode == "push" {
-		fmt.Fprintf(&b, "  deliver \"%s/t/%s\" {\n    retry exponential max 20 base 1ms cap 1ms jitter 0\n    timeout 20s\n  }\n  deliver_concurrency 4\n", auxURL, jid)
+	if r.Mode == "push" {
+		targets := []string{"t"}
+		if r.Fan {
+			targets = []string{"t", "t2"}
+		}
+		for _, t := range targets {
+			delay := "1ms"
+			if r.Fan {
+				delay = "150ms" // a copy that failed must not come back while the other copy of the same step is still under way
+			}
+			fmt.Fprintf(&b, "  deliver \"%s/%s/%s\" {\n    retry exponential max 20 base %s cap %s jitter 0\n    timeout 20s\n", auxURL, t, jid, delay, delay)
+			if r.Signed {
+				b.WriteString("    sign hmac raw:" + signSecret + "\n")
+			}
+			b.WriteString("  }\n")
+		}
+		b.WriteString("  deliver_concurrency 4\n")
 	} else {
 		b.WriteString("  pull { path /pull/in }\n")
 	}
 	b.WriteString("}\n")
 	b.WriteString("/aux {\n")
-	fmt.Fprintf(&b, "  queue { backend %s }\n", backend)
+	fmt.Fprintf(&b, "  queue { backend %s }\n", r.Backend)
 	b.WriteString("  pull { path /pull/aux }\n}\n")
 	return b.String()
 }
